@@ -207,6 +207,14 @@ func (c02) remote(c *fw.Case) {
 		retarget(ref)
 	}
 	mc := &modelCase{draft: refmodel.D7, rootText: gen.Text(root), baseURI: "http://h/dir/root.json", docs: docs}
+	if r.IntN(3) == 0 {
+		// the same documents were used before by roots of the OTHER draft (none declared, 2020-12 declared, unsupported)
+		first := fmt.Sprint(ref["$ref"])
+		mc.priorRoots = []string{`{"$ref":"` + first + `"}`, `{"$schema":"` + gen.Schema2020URI + `","allOf":[{"$ref":"` + first + `"}]}`}
+		if r.IntN(2) == 0 {
+			mc.priorRoots = mc.priorRoots[:1]
+		}
+	}
 	mod, rs, _, ok := mc.build(c)
 	if !ok {
 		return
